@@ -345,6 +345,25 @@ func runC06(c *mon.Ctx) {
 					if !expectOK && verr == nil {
 						c.Failf("verify:accepts-invalid:"+faultClass(states, reqList), "v%s %s with states %v (strict=%v): VerifyEventSignatures accepted\n%s", ver, kind.name, stateDesc(states), strict, final.JSON())
 					}
+					if ver != gmsl.RoomVersionPseudoIDs && caseNo%4 == 0 {
+						// the sender's server is required in all cases: a sender lookup that cannot name the sender's user (it
+						// answers nil without an error) must not make that requirement vanish
+						sv := ref.MustParse(final.JSON())
+						sv.Get("signatures").Del(sSender)
+						if stripped, err := impl.NewEventFromTrustedJSON(gen.Plain().Bytes(sv), false); err == nil {
+							nobody := func(spec.RoomID, spec.SenderID) (*spec.UserID, error) { return nil, nil }
+							var uerr error
+							site, msg, pan := mon.Guard(func() {
+								uerr = gmsl.VerifyEventSignatures(context.Background(), stripped, &gmsl.KeyRing{KeyDatabase: db}, nobody)
+							})
+							c.Count("verifications_with_unknown_sender")
+							if pan {
+								c.Failf("verify:panic:"+site, "VerifyEventSignatures panics when the sender lookup knows nobody: %s", msg)
+							} else if uerr == nil {
+								c.Failf("verify:accepts-invalid:sender-unknown-to-the-lookup", "v%s %s: an event without any signature of its sender's server %s verifies when the sender lookup answers nil\n%s", ver, kind.name, sSender, stripped.JSON())
+							}
+						}
+					}
 					if c.WantSample() && faulty {
 						c.Sample(desc)
 					}
